@@ -38,9 +38,9 @@ class Runner:
     def __init__(self, spec, path, workdir):
         self.spec, self.path, self.dir = spec, path, workdir
         self.n = 0
-        self.objs = {'A': self.fresh()}
+        self.specs = {'A': spec}
+        self.objs = {'A': self.fresh(spec)}
         self.kind = {'A': 'original'}
-        self.base = W.evaluate(spec)
         self.fails = []
         self.labels = []
         self.observed = 0
@@ -48,9 +48,9 @@ class Runner:
         self.nontrivial = False
         self.trace = []
 
-    def fresh(self):
+    def fresh(self, spec):
         self.n += 1
-        return O.build(self.spec, self.path, os.path.join(self.dir, 'm%d' % self.n))
+        return O.build(spec, self.path, os.path.join(self.dir, 'm%d' % self.n))
 
     def fail(self, sig, detail):
         if sig not in [s for s, _ in self.fails]:
@@ -59,7 +59,7 @@ class Runner:
     # -- observed operations -------------------------------------------------
     def calc(self, name, ovs, outs, sub):
         m = self.objs[name]
-        spec = self.spec
+        spec = self.specs[name]
         inputs, missing = O.to_inputs(m, spec, ovs)
         ovs = [ov for ov in ovs if ov not in missing]
         expected = W.evaluate(spec, O.to_cells(spec, ovs))
@@ -84,7 +84,7 @@ class Runner:
             form = s.split('|', 2)
             self.fail('override|%s|%s' % (tag, '|'.join(form[1:])), '[%s] %s (overrides %s)' % (name, d, ovs))
         # (b) fresh model, same call
-        fm = self.fresh()
+        fm = self.fresh(spec)
         finputs, _ = O.to_inputs(fm, spec, ovs)
         fout = None
         if out_ids:
@@ -113,7 +113,7 @@ class Runner:
 
     def call(self, name, ins, outs, args, sub, fcopy=None):
         m = self.objs[name]
-        spec = self.spec
+        spec = self.specs[name]
         in_ids, in_ovs = [], []
         for ov in ins:
             nid = O.node_of(m, O.target_id(spec, ov))
@@ -194,9 +194,23 @@ class Runner:
                 m.finish(complete=False)
             else:
                 m.finish()
+        elif k == 'edit':
+            # the user edits a constant cell of THIS object: only this object's results may change
+            spec = copy.deepcopy(self.specs[op[1]])
+            # plain-valued constants only: an error-valued constant is a formula node in the repo's model
+            # (replacing a formula by a value on a live model is not an operation the API offers)
+            consts = [c for c in spec['cells'] if 'f' not in c and not isinstance(c['v'], list)]
+            if not consts:
+                return
+            cell = consts[op[2] % len(consts)]
+            cell['v'] = op[3]
+            b, s_, r, c = cell['at']
+            m.from_dict({G.qual_full(spec, b, s_) + G.a1(r, c): G.const_out(op[3])})
+            self.specs[op[1]] = spec
         elif k == 'copy':
             src, dst, how = op[1], op[2], op[3]
             self.objs[dst] = do_copy(self.objs[src], how)
+            self.specs[dst] = self.specs[src]
             self.kind[dst] = how
             self.prev_ov[dst] = self.prev_ov.get(src, None) or '[]'
         self.labels.append('op:' + k + ((':' + op[3]) if k == 'copy' else ''))
@@ -226,7 +240,7 @@ def _shape_like(spec, ov, a):
 # ---------------------------------------------------------------- strategies
 @st.composite
 def histories(draw, tier, max_ops=8, objects=('A',), copies=('deepcopy',), name_rate=3, end_with_calc=True, fcopies=False,
-              start_with_copy=False):
+              start_with_copy=False, edits=False):
     spec = draw(G.specs(tier, max_books=2, wholecols=False, name_rate=name_rate))
     path = draw(st.sampled_from(['dict', 'dict', 'file']))
     forms = [c for c in spec['cells'] if 'f' in c and 'arr' not in c]
@@ -242,7 +256,8 @@ def histories(draw, tier, max_ops=8, objects=('A',), copies=('deepcopy',), name_
         live.append(objects[1])
     for i in range(nops):
         last = end_with_calc and i == nops - 1
-        k = 'calc' if last else draw(st.sampled_from(['calc', 'calc', 'calc', 'call', 'to_dict', 'write', 'finish', 'copy', 'copy'] if len(objects) > 1 or True else []))
+        kinds = ['calc', 'calc', 'calc', 'call', 'to_dict', 'write', 'finish', 'copy', 'copy'] + (['edit', 'edit'] if edits else [])
+        k = 'calc' if last else draw(st.sampled_from(kinds))
         obj = draw(st.sampled_from(live))
         if k == 'calc':
             ovs = draw(O.overrides(spec, max_n=3))
@@ -275,8 +290,13 @@ def histories(draw, tier, max_ops=8, objects=('A',), copies=('deepcopy',), name_
             how = draw(st.sampled_from(list(copies)))
             ops.append(['copy', obj, free[0], how])
             live.append(free[0])
+        elif k == 'edit':
+            ops.append(['edit', obj, draw(st.integers(0, 30)), draw(st.sampled_from([11.0, -7.0, 0.0, 2.5, 'edited', True]))])
         elif k == 'write':
             ops.append(['write', obj, draw(st.sampled_from(['mem', 'disk']))])
         else:
             ops.append([k, obj])
     return {'k': 'history', 'spec': spec, 'path': path, 'ops': ops}
+
+
+EDIT_VALS = st.one_of(st.sampled_from([11.0, -7.0, 0.0, 2.5]), st.sampled_from(['edited', 'q']), st.booleans())
